@@ -730,6 +730,8 @@ void QXmppClient::disconnectFromServer()
 
     d->clientPresence.setType(QXmppPresence::Unavailable);
     d->clientPresence.setStatusText(u"Logged out"_s);
+    // extensions or the discovery identity may have changed since the presence was stored
+    d->addProperCapability(d->clientPresence);
     if (d->stream->isConnected()) {
         sendPacket(d->clientPresence);
     }
@@ -845,6 +847,8 @@ QXmppClient::State QXmppClient::state() const
 /// Returns the client's current presence.
 QXmppPresence QXmppClient::clientPresence() const
 {
+    // presences derived from this one (e.g. MUC joins) must advertise the capabilities of this moment (XEP-0115)
+    d->addProperCapability(d->clientPresence);
     return d->clientPresence;
 }
 
@@ -991,6 +995,9 @@ void QXmppClient::_q_streamConnected(const QXmpp::Private::SessionBegin &session
 
     // send initial presence
     if (d->stream->isAuthenticated() && streamManagementState() != ResumedStream) {
+        // the stored presence was prepared in connectToServer()/setClientPresence(): extensions or the discovery identity
+        // may have changed since (also before an automatic reconnection), so advertise the capabilities of this moment
+        d->addProperCapability(d->clientPresence);
         sendPacket(d->clientPresence);
     }
 }
